@@ -332,5 +332,31 @@ def r7_memo(chk: Check) -> None:
                          "MEMO-KEY(anchor modules of this property): lifecycle verdicts depend on the case, its history and the response: a cache keyed by less judges another case", floor=0)
 
 
+def r8_not_generated_means_all_explicit(chk: Check) -> None:
+    chk.rule("C18.R8", "GUARD(container marked 'not generated' = everything in it was given): generate_parameter clears the container's generator (-> ComponentInfo / StoredValue.is_generated False -> the container counts as fully overridden by the link) only under `value == explicit`, the equality of the WHOLE final container with what was passed in; any weaker test (a disjunct, a subset / membership test) marks a container as link-provided although some of its parameters were generated, and 'resource not available after creation' then fires for a request whose parameters did not all come from a link", floor=1)
+    P = chk.project
+    fn = P.func("specs/openapi/_hypothesis.py:generate_parameter")
+    n = 0
+    for x in walk_body(fn.node):
+        if isinstance(x, ast.Assign) and isinstance(x.value, ast.Constant) and x.value.value is None and any(isinstance(t_, ast.Name) and "generator" in t_.id for t_ in x.targets):
+            n += 1
+            construct = f"`{unparse(x, 40)}` only under whole-container equality"
+            p_ = parent(x)
+            if not isinstance(p_, ast.If) or x not in p_.body:
+                chk.undecided("C18.R8", fn, construct, "the store is not directly in the true arm of an `if`", fn.loc(x))
+                continue
+            t = p_.test
+            if isinstance(t, ast.Compare) and len(t.ops) == 1 and isinstance(t.ops[0], ast.Eq) and {unparse(t.left), unparse(t.comparators[0])} == {"value", "explicit"}:
+                chk.ok("C18.R8", fn, construct, unparse(t), fn.loc(p_))
+            elif isinstance(t, ast.BoolOp) and isinstance(t.op, ast.Or):
+                chk.violation("C18.R8", fn, construct, f"the guard is a disjunction (`{unparse(t, 90)}`): the container is also marked as not generated when the explicit values are merely contained in it - a link that supplies one of two path parameters makes the whole container count as link-provided", fn.loc(p_))
+            elif isinstance(t, ast.Compare) and isinstance(t.ops[0], (ast.In, ast.LtE, ast.GtE, ast.Lt, ast.Gt)):
+                chk.violation("C18.R8", fn, construct, f"`{unparse(t, 90)}` is a containment test, not equality of the whole container", fn.loc(p_))
+            else:
+                chk.undecided("C18.R8", fn, construct, f"guard `{unparse(t, 90)}` not recognised", fn.loc(p_))
+    if n < 1:
+        chk.undecided("C18.R8", "<discovery>", "stores=0", "no `<generator> = None` store found in generate_parameter")
+
+
 def rules(tier: str) -> list:  # type: ignore[type-arg]
-    return [r1_own_response, r2_prefix_arguments, r3_accusation_guards, r4_history_lookups, r5_identifier_values_compared_exactly, r6_all_parameters_from_link, r7_memo]
+    return [r1_own_response, r2_prefix_arguments, r3_accusation_guards, r4_history_lookups, r5_identifier_values_compared_exactly, r6_all_parameters_from_link, r7_memo, r8_not_generated_means_all_explicit]
